@@ -22,6 +22,13 @@ HasValue(e) == ~IsUndef(Eval(e, MatchEnv))
 C11_Table == {PBin(op, l, r) : op \in AllBinOps, l \in L1, r \in L1}
                \cup {PUn(op, l) : op \in PrefixOps, l \in L1}
 
+(* strings that look like numbers in other notations: the coercion is       *)
+(* decimal (optional sign, digits), everything else counts as 0             *)
+StrNum == {PStr(<<48, 49, 48>>), PStr(<<48, 56>>), PStr(<<48, 120, 49, 48>>), PStr(<<49, 95, 48>>), PStr(<<43, 53>>), PStr(<<45, 51>>),
+           PStr(<<48, 98, 49>>), PStr(<<32, 55>>), PStr(<<48, 111, 55>>)}
+C11_Coerce == {PBin(op, n, x) : op \in ArithOps \cup CmpOps, n \in {PNum(7), PNum(0), PNum(8)}, x \in StrNum}
+                \cup {PBin(op, x, n) : op \in ArithOps \cup CmpOps, n \in {PNum(7), PNum(2)}, x \in StrNum}
+
 (* precedence and associativity: every pair of operators in both shapes     *)
 Triples == { <<PNum(7), PNum(2), PNum(3)>>, <<PStr(S7), PNum(2), PNum(3)>>, <<PStr(S7), PStr(<<50>>), PStr(<<51>>)>>,
              <<PBool(TRUE), PBool(FALSE), PBool(TRUE)>>, <<PNum(7), PStr(<<50>>), PBool(TRUE)>>,
@@ -43,7 +50,7 @@ C11_Deep == {PBin(o3, PBin(o2, PBin(o1, PNum(7), PNum(2)), PNum(3)), PNum(5)) : 
               \cup {PBin(o2, PBin(o1, PNum(7), PNum(2)), PBin(o3, PNum(3), PNum(5))) : o1 \in Ops4, o2 \in Ops4, o3 \in Ops4}
 
 C11_Exprs(tier) ==
-  {e \in C11_Table \cup C11_Pairs \cup C11_Unary \cup C11_Deep : Defined(e) /\ HasValue(e)}
+  {e \in C11_Table \cup C11_Pairs \cup C11_Unary \cup C11_Deep \cup C11_Coerce : Defined(e) /\ HasValue(e)}
 
 (* how the value of e is made observable                                    *)
 TStr == <<84>>   FStr == <<70>>
